@@ -50,7 +50,8 @@ def world(z1=None, z2=None, edits=()):
     ub = (30, 10) if 'swapB' in edits else (10, 30)
     dmC = pb.DragModel(0.3, pb.TableG7)        # no weight / dimensions: no spin drift whatever the barrel twist
     S = {'A': pb.Shot(W1, ammoA, winds=windsA),
-         'B': pb.Shot(W2, pb.Ammo(dmB, U.FPS(2000)), look_angle=U.Degree(10), atmo=atm,
+         # B: powder sensitivity on, powder (15 C) warmer than the air at 5000 ft: the launch velocity is derived from ammo and atmosphere at every call
+         'B': pb.Shot(W2, pb.Ammo(dmB, U.FPS(2000), U.Celsius(15), 0.015, True), look_angle=U.Degree(10), atmo=atm,
                       winds=[pb.Wind(U.MPH(5), U.Degree(45), U.Yard(ub[0])), pb.Wind(U.MPH(15), U.Degree(200), U.Yard(ub[1]))]),
          'C': pb.Shot(W1, pb.Ammo(dmA, U.FPS(100)), relative_angle=U.Degree(30)),    # raises RangeError
          'D': pb.Shot(W1, pb.Ammo(dmB, U.FPS(2400)), winds=[pb.Wind(U.MPH(20), U.Degree(90))] if 'defwindD' in edits else None),
@@ -122,6 +123,9 @@ def run(op, w):
         if kind == 'new_multibc_from':
             m = pb.DragModelMultiBC([pb.BCPoint(0.25, Mach=2.0), pb.BCPoint(0.2, Mach=1.0)], w['S'][op[1]].ammo.dm.drag_table)
             return ['ok', model_obs(m)]
+        if kind == 'new_vacuum':
+            v_ = pb.Vacuum(U.Foot(300), U.Celsius(-2))
+            return ['ok', [bits(v_.density_ratio), bits(v_.altitude.raw_value), [bits(x) for x in v_.get_density_factor_and_mach_for_altitude(4000.0)][:1]]]
         if kind == 'new_atmo':
             a = pb.Atmo(U.Foot(1000), U.InHg(28), U.Fahrenheit(80), 30)
             return ['ok', [bits(a.altitude.raw_value), bits(a.pressure.raw_value), bits(a.temperature.raw_value), bits(a.humidity), bits(a.density_ratio),
@@ -151,7 +155,7 @@ def all_ops():
     ops = [[kind, k, s] for kind in ('zero', 'fire', 'firex', 'danger') for k in ('K0', 'K1') for s in 'ABCDFGH']
     ops += [[kind, 'fresh', s] for kind in ('zero', 'fire', 'firex', 'danger') for s in 'ACG']
     ops += [['zerofar', k, 'E'] for k in ('K0', 'K1', 'fresh')]
-    ops += [['new_calc', 'K0'], ['new_calc', 'K1'], ['new_multibc'], ['new_multibc_from', 'A'], ['new_multibc_from', 'B'], ['new_atmo'], ['new_shot', 'D'],
+    ops += [['new_calc', 'K0'], ['new_calc', 'K1'], ['new_vacuum'], ['new_multibc'], ['new_multibc_from', 'A'], ['new_multibc_from', 'B'], ['new_atmo'], ['new_shot', 'D'],
             ['edit', 'swapB'], ['edit', 'appendA'], ['edit', 'mvG'], ['edit', 'bcA'], ['edit', 'defwindD']]
     return ops
 
